@@ -101,7 +101,7 @@ fn one_op<const OP: u8, const SOME: bool, const FRESH: bool, const N: usize, con
     forget(x);
 }
 
-// @h prop=C11,C04 tier=quick kind=check timeout=2400 mem=14 bound="UriRefBuf with authority, text <= 3 bytes, user info <= 1 byte" encodes="RiRefBufImpl::authority_mut;AuthorityMutImpl::{set_userinfo,as_authority};parse::find_user_info;utils::{replace,allocate_range}"
+// @h prop=C11,C04 tier=quick kind=check reach=0 timeout=2400 mem=14 bound="UriRefBuf with authority, text <= 3 bytes, user info <= 1 byte" encodes="RiRefBufImpl::authority_mut;AuthorityMutImpl::{set_userinfo,as_authority};parse::find_user_info;utils::{replace,allocate_range}"
 #[cfg_attr(kani, kani::proof)]
 #[cfg_attr(kani, kani::unwind(8))]
 #[cfg_attr(kani, kani::stub(std::vec::Vec::resize, crate::stubs::vec_resize))]
@@ -109,7 +109,7 @@ pub fn c11_set_userinfo_some_n3() {
     one_op::<USERINFO, true, false, 3, 1>(covers_min)
 }
 
-// @h prop=C11,C04 tier=thorough kind=check timeout=2400 mem=17 bound="UriRefBuf with authority, text <= 4 bytes, user info <= 2 bytes" encodes="RiRefBufImpl::authority_mut;AuthorityMutImpl::{set_userinfo,as_authority};parse::find_user_info;utils::{replace,allocate_range}"
+// @h prop=C11,C04 tier=thorough kind=check reach=0 timeout=2400 mem=17 bound="UriRefBuf with authority, text <= 4 bytes, user info <= 2 bytes" encodes="RiRefBufImpl::authority_mut;AuthorityMutImpl::{set_userinfo,as_authority};parse::find_user_info;utils::{replace,allocate_range}"
 #[cfg_attr(kani, kani::proof)]
 #[cfg_attr(kani, kani::unwind(8))]
 #[cfg_attr(kani, kani::stub(std::vec::Vec::resize, crate::stubs::vec_resize))]
@@ -117,7 +117,7 @@ pub fn c11_set_userinfo_some_n4() {
     one_op::<USERINFO, true, true, 4, 2>(covers_all)
 }
 
-// @h prop=C11,C04:thorough tier=quick kind=check timeout=2400 mem=10 bound="UriRefBuf with authority, text <= 3 bytes, user info removed" encodes="RiRefBufImpl::authority_mut;AuthorityMutImpl::{set_userinfo,as_authority};parse::find_user_info;utils::{replace,allocate_range}"
+// @h prop=C11,C04:thorough tier=quick kind=check reach=0 timeout=2400 mem=10 bound="UriRefBuf with authority, text <= 3 bytes, user info removed" encodes="RiRefBufImpl::authority_mut;AuthorityMutImpl::{set_userinfo,as_authority};parse::find_user_info;utils::{replace,allocate_range}"
 #[cfg_attr(kani, kani::proof)]
 #[cfg_attr(kani, kani::unwind(8))]
 #[cfg_attr(kani, kani::stub(std::vec::Vec::resize, crate::stubs::vec_resize))]
@@ -125,7 +125,7 @@ pub fn c11_set_userinfo_none_n3() {
     one_op::<USERINFO, false, false, 3, 0>(covers_min)
 }
 
-// @h prop=C11,C04 tier=quick kind=check timeout=2400 mem=10 bound="UriRefBuf with authority, text <= 3 bytes, host <= 2 bytes" encodes="AuthorityMutImpl::{set_host,as_authority};parse::find_host;utils::replace"
+// @h prop=C11,C04 tier=quick kind=check reach=0 timeout=2400 mem=10 bound="UriRefBuf with authority, text <= 3 bytes, host <= 2 bytes" encodes="AuthorityMutImpl::{set_host,as_authority};parse::find_host;utils::replace"
 #[cfg_attr(kani, kani::proof)]
 #[cfg_attr(kani, kani::unwind(8))]
 #[cfg_attr(kani, kani::stub(std::vec::Vec::resize, crate::stubs::vec_resize))]
@@ -133,7 +133,7 @@ pub fn c11_set_host_n3() {
     one_op::<HOST, true, false, 3, 2>(covers_min)
 }
 
-// @h prop=C11,C04 tier=thorough kind=check timeout=2400 mem=13 bound="UriRefBuf with authority, text <= 4 bytes, host <= 2 bytes" encodes="AuthorityMutImpl::{set_host,as_authority};parse::find_host;utils::replace"
+// @h prop=C11,C04 tier=thorough kind=check reach=0 timeout=2400 mem=13 bound="UriRefBuf with authority, text <= 4 bytes, host <= 2 bytes" encodes="AuthorityMutImpl::{set_host,as_authority};parse::find_host;utils::replace"
 #[cfg_attr(kani, kani::proof)]
 #[cfg_attr(kani, kani::unwind(8))]
 #[cfg_attr(kani, kani::stub(std::vec::Vec::resize, crate::stubs::vec_resize))]
@@ -141,7 +141,7 @@ pub fn c11_set_host_n4() {
     one_op::<HOST, true, true, 4, 2>(covers_all)
 }
 
-// @h prop=C11,C04:thorough tier=thorough kind=check timeout=2400 mem=24 bound="UriRefBuf with authority, text <= 3 bytes, port <= 1 byte" encodes="AuthorityMutImpl::{set_port,as_authority};parse::find_port;utils::{replace,allocate_range}"
+// @h prop=C11,C04:thorough tier=thorough kind=check reach=0 timeout=2400 mem=24 bound="UriRefBuf with authority, text <= 3 bytes, port <= 1 byte" encodes="AuthorityMutImpl::{set_port,as_authority};parse::find_port;utils::{replace,allocate_range}"
 #[cfg_attr(kani, kani::proof)]
 #[cfg_attr(kani, kani::unwind(8))]
 #[cfg_attr(kani, kani::stub(std::vec::Vec::resize, crate::stubs::vec_resize))]
@@ -149,7 +149,7 @@ pub fn c11_set_port_some_n3() {
     one_op::<PORT, true, true, 3, 1>(covers_all)
 }
 
-// @h prop=C11,C04 tier=thorough kind=check timeout=2400 mem=17 bound="UriRefBuf with authority, text <= 4 bytes, port <= 2 bytes" encodes="AuthorityMutImpl::{set_port,as_authority};parse::find_port;utils::{replace,allocate_range}"
+// @h prop=C11,C04 tier=thorough kind=check reach=0 timeout=2400 mem=17 bound="UriRefBuf with authority, text <= 4 bytes, port <= 2 bytes" encodes="AuthorityMutImpl::{set_port,as_authority};parse::find_port;utils::{replace,allocate_range}"
 #[cfg_attr(kani, kani::proof)]
 #[cfg_attr(kani, kani::unwind(8))]
 #[cfg_attr(kani, kani::stub(std::vec::Vec::resize, crate::stubs::vec_resize))]
@@ -157,7 +157,7 @@ pub fn c11_set_port_some_n4() {
     one_op::<PORT, true, true, 4, 2>(covers_all)
 }
 
-// @h prop=C11,C04:thorough tier=quick kind=check timeout=2400 mem=10 bound="UriRefBuf with authority, text <= 3 bytes, port removed" encodes="AuthorityMutImpl::{set_port,as_authority};parse::find_port;utils::{replace,allocate_range}"
+// @h prop=C11,C04:thorough tier=thorough kind=check reach=0 timeout=2400 mem=10 bound="UriRefBuf with authority, text <= 3 bytes, port removed" encodes="AuthorityMutImpl::{set_port,as_authority};parse::find_port;utils::{replace,allocate_range}"
 #[cfg_attr(kani, kani::proof)]
 #[cfg_attr(kani, kani::unwind(8))]
 #[cfg_attr(kani, kani::stub(std::vec::Vec::resize, crate::stubs::vec_resize))]
@@ -215,7 +215,7 @@ fn two_ops<const N: usize, const M: usize>() {
     forget(y);
 }
 
-// @h prop=C11,C04 tier=thorough kind=check timeout=5400 mem=24 bound="UriRefBuf with authority, text <= 6 bytes, two symbolic ops through one handle, arguments <= 2 bytes" encodes="AuthorityMutImpl::{set_userinfo,set_host,set_port} in sequence on one handle (start/end bookkeeping)"
+// @h prop=C11,C04 tier=thorough kind=check reach=0 timeout=5400 mem=24 bound="UriRefBuf with authority, text <= 6 bytes, two symbolic ops through one handle, arguments <= 2 bytes" encodes="AuthorityMutImpl::{set_userinfo,set_host,set_port} in sequence on one handle (start/end bookkeeping)"
 #[cfg_attr(kani, kani::proof)]
 #[cfg_attr(kani, kani::unwind(17))]
 #[cfg_attr(kani, kani::stub(std::vec::Vec::resize, crate::stubs::vec_resize))]
